@@ -93,9 +93,9 @@ fn subset_with_offset_type<OffsetType: GvarOffset>(
     );
 
     // calculate glyphVariationDataArrayOffset: put the glyphVariationData at last in the table
-    let shared_tuples_size = 2 * gvar.axis_count() * gvar.shared_tuple_count();
+    let shared_tuples_size = 2 * gvar.axis_count() as u32 * gvar.shared_tuple_count() as u32;
     let glyph_var_data_offset =
-        FIXED_HEADER_SIZE + glyph_var_data_offset_array_size + shared_tuples_size as u32;
+        FIXED_HEADER_SIZE + glyph_var_data_offset_array_size + shared_tuples_size;
     s.embed(glyph_var_data_offset)
         .map_err(|_| SubsetError::SubsetTableError(Gvar::TAG))?;
 
